@@ -424,6 +424,19 @@ def fifo(ctx):
             if allowed is None and fld not in ("awaiting_ack", "subscriptions", "retrasmit_queue"):
                 # inbound-only bookkeeping collections (e.g. the set of unreleased inbound QoS 2 identifiers)
                 allowed = {("inbound", "Push"): {"back"}, ("inbound", "Remove"): {"keyed", "retain"}, ("reset_session", "Clear"): {None}}.get((role, e.kind))
+            if role == "inbound" and e.kind == "Remove" and fld == "awaiting_ack" and not e.via:
+                # a waiter whose caller has gone away is removed like any other: one that stays registered answers to the
+                # next acknowledgement with the same key (every ping shares one) and shadows the waiters behind it
+                hp_ = ctx.inbound_handler()
+                from cond import Cond as _Cond
+                dep = []
+                for (d_, s_) in hp_.control_dep_closure(e.bb):
+                    t_ = hp_.term(d_)
+                    if t_["k"] == "switch" and any(a[0] == "call" and re.search(r"::(is_canceled|is_closed|poll_canceled|is_connected_to)$", a[1]) for a in hp_.atoms(t_["op"])):
+                        dep.append(hp_.site(d_))
+                out.append(Inst("FIFO", "inbound:Remove(awaiting_ack):independent-of-cancellation", not dep, e.site(),
+                                "the removal of the found waiter %s" % ("does not hang on whether its caller still listens" if not dep else "hangs on the cancellation test at %s" % sorted(set(dep))),
+                                "an acknowledgement removes the waiter it finds, listening or not"))
             ok = allowed is not None and how in allowed
             out.append(Inst("FIFO", "%s:%s(%s):%s" % (role, e.kind, fld, e.detail["method"]), ok, e.site(),
                             "%s.%s(..) in %s" % (fld, e.detail["method"], role),
